@@ -58,7 +58,7 @@ def ops(tier: str) -> List[tuple]:
             out.append(_op("sweep", s, e, duration_ms=d, steps=steps))
     for name in MELODIES:
         out.append(_op("melody", name))
-    for tempo in (-1, 0, 60, 240, 97):
+    for tempo in (-1, 0, 60, 240, 97, 37.5, 112.5, 0.5, 225 / 2):
         out.append(_op("melody", "notify", tempo=tempo))
         out.append(_op("melody", "error", tempo=tempo))
     return out
@@ -122,16 +122,43 @@ def build(seq: Sequence[int], all_ops, mode: str, placement: str) -> Optional[di
         lines += pre + [f'mon.write("call {k}")', call] + GETTERS
     if mode == "rt" and not feed:
         return None
+    ops_by_pass = None
     if placement == "setup":
         src = common.script(["bz = Buzzer(8)"] + lines, prologue=PRO)
         run = {"passes": 0}
     else:
         src = common.script(["bz = Buzzer(8)"], lines, prologue=PRO)
         run = {"passes": 2}
-        feed = feed * 2
+        if mode == "rt":
+            # the second pass executes the same call sites with DIFFERENT run-time values
+            second = [_vary(all_ops[i]) for i in seq]
+            feed2: List[int] = []
+            for op2 in second:
+                render(op2, mode, feed2, [])
+            ops_by_pass = [[all_ops[i] for i in seq], second]
+            feed = feed + feed2
+        else:
+            feed = feed * 2
     if feed:
         run["ar"] = {"A0": feed}
-    return {"id": f"{mode}:{placement}:{seq}", "src": src, "runs": [run], "ops": [all_ops[i] for i in seq], "placement": placement}
+    case = {"id": f"{mode}:{placement}:{seq}", "src": src, "runs": [run], "ops": [all_ops[i] for i in seq], "placement": placement}
+    if ops_by_pass:
+        case["ops_by_pass"] = ops_by_pass
+    return case
+
+
+def _vary(op):
+    """The same call with other (valid, same sign class) numeric values: what the second loop() pass feeds."""
+    name, args, kwargs = op
+    def v(x, key=None):
+        if isinstance(x, str) or x is None or x <= 0:
+            return x
+        if key == "tempo":
+            return x * 2
+        if key in ("times", "steps"):
+            return x
+        return x + 7
+    return (name, [v(a) for a in args], {k: v(val, k) for k, val in kwargs.items()})
 
 
 def generate(tier: str, only=None) -> Iterator[dict]:
@@ -378,6 +405,8 @@ def monitor(case, dr) -> Optional[str]:
         return f"{len(calls)} call segments in the trace, expected {len(ops_list) * reps}"
     for k, (events, getters) in enumerate(calls):
         op = ops_list[k % len(ops_list)]
+        if case.get("ops_by_pass"):
+            op = case["ops_by_pass"][min(k // len(ops_list), 1)][k % len(ops_list)]
         recv = recvs[k % len(ops_list)]
         pin = PINS[recv]
         mine: List[tuple] = []
